@@ -51,6 +51,12 @@ def _worker(args):
 def _static_worker(args):
     kind, idx, timeout_s = args
     reg = registry()
+    if kind == "lemma_spec":
+        try:
+            return verify.verify_lemma(reg, reg.lemma_specs[idx], timeout_s)
+        except BaseException as e:  # noqa: BLE001
+            return {"key": f"lemma:{idx}", "obligations": [], "error": f"crash: {e!r}", "traceback": traceback.format_exc(),
+                    "crash": True, "paths": 0, "fingerprint": None}
     lst = {"table": reg.tables, "lemma": reg.lemmas, "static": reg.statics}[kind]
     prop, name, fn = lst[idx]
     t0 = time.time()
@@ -216,6 +222,9 @@ def run_property(prop, tier="quick", seed=0, jobs=None, rebaseline=False, only=N
             if prop in (p if isinstance(p, (tuple, list)) else [x.strip() for x in p.split(",")]):
                 if not only or only in name:
                     statics.append((kind, i, timeout_s))
+    for i, lem in enumerate(getattr(reg, "lemma_specs", [])):
+        if prop in [x.strip() for x in lem["prop"].split(",")] and (not only or only in lem["name"]):
+            statics.append(("lemma_spec", i, timeout_s))
     jobs = jobs or min(16, os.cpu_count() or 4)
     per_fn_budget = 150.0 if tier == "quick" else 900.0
     tasks = [("fn", (k, timeout_s), k) for k in keys] + [("static", st, f"{st[0]}#{st[1]}") for st in statics]
@@ -262,6 +271,8 @@ def run_property(prop, tier="quick", seed=0, jobs=None, rebaseline=False, only=N
         elif e["verdict"] == "unknown":
             undecided.append((name, "solver gave no answer"))
     for name in baseline:
+        if only:
+            break
         if name not in g:
             undecided.append((name, "obligation of the baseline was not generated on this tree"))
     for r in notgen:
@@ -305,7 +316,7 @@ def run_property(prop, tier="quick", seed=0, jobs=None, rebaseline=False, only=N
     funcs = [{"function": r["key"], **(r["fingerprint"] or {}), "paths": r.get("paths", 0),
               "obligations": len(r["obligations"]), "status": "not-generated: " + r["error"] if r.get("error") else "ok",
               "canary_paths": r.get("canary_refuted", 0)} for r in results]
-    vacuous = [r["key"] for r in results if not r.get("error") and not r["key"].split(":")[0] in ("table", "lemma", "static")
+    vacuous = [r["key"] for r in results if not r.get("error") and not r["key"].split(":")[0] in ("table", "lemma", "static", "lemma_spec")
                and r.get("canary_refuted", 0) == 0]
     samples = []
     for name, e in list(sorted(g.items()))[:6]:
